@@ -103,11 +103,12 @@ func runC07(c *Ctx) {
 			continue
 		}
 		type leg struct {
-			fn       *ssa.Function
-			dst, src ssa.Value
-			closes   ssa.Value
-			done     ssa.Value
-			goInstr  *ssa.Go
+			fn        *ssa.Function
+			dst, src  ssa.Value
+			closes    ssa.Value
+			done      ssa.Value
+			sharedBuf ssa.Value
+			goInstr   *ssa.Go
 		}
 		var legs []leg
 		allInstrs(fn, func(i ssa.Instruction) {
@@ -155,9 +156,17 @@ func runC07(c *Ctx) {
 			allInstrs(cf, func(j ssa.Instruction) {
 				switch x := j.(type) {
 				case *ssa.Call:
-					if commonName(&x.Call) == "io.Copy" {
+					if cn := commonName(&x.Call); cn == "io.Copy" || cn == "io.CopyBuffer" {
 						l.dst = resolve(x.Call.Args[0])
 						l.src = resolve(x.Call.Args[1])
+						if cn == "io.CopyBuffer" {
+							// a scratch buffer must belong to this goroutine alone
+							if sh := resolve(x.Call.Args[2]); sh != nil {
+								l.sharedBuf = sh
+							} else if _, isP := strip(x.Call.Args[2]).(*ssa.Parameter); isP {
+								l.sharedBuf = x.Call.Args[2]
+							}
+						}
 					}
 				case *ssa.Defer:
 					if x.Call.IsInvoke() && x.Call.Method.Name() == "Close" {
@@ -196,6 +205,8 @@ func runC07(c *Ctx) {
 			bad = "a copy goroutine does not close its own destination when its source ends: end-of-stream is not propagated and the other leg is never released"
 		case a.done == nil || b.done == nil || path(a.done) != path(b.done):
 			bad = "the goroutines do not signal one shared WaitGroup"
+		case a.sharedBuf != nil && b.sharedBuf != nil && a.sharedBuf == b.sharedBuf:
+			bad = "both copy directions use the same scratch buffer: each direction overwrites bytes the other has read but not yet written"
 		}
 		if bad == "" {
 			// Add(2) before both go statements, Wait after
@@ -277,10 +288,26 @@ func c07Adapter(c *Ctx) {
 		c.fail("C07.R2", fnName(read)+"/shape", read.Pos(), "Read does not fetch message readers with NextReader and read from the retained reader")
 		return
 	}
-	c.check(anyFact(fs.At(next.Block()), func(f Fact) bool { return cmpFact(f, token.EQL, isReaderLoad, isNilConst) }), "C07.R2", fnName(read)+"/next-only-when-drained", next.Pos(),
-		"the next message is requested only when no reader is retained", "NextReader can be called while a partially read message is still retained: the rest of that message is lost")
+	for _, m := range methodsOf(p, "pkg/websocket", "Conn") {
+		mfs := computeFacts(m)
+		allInstrs(m, func(i ssa.Instruction) {
+			cl, ok := i.(*ssa.Call)
+			if !ok {
+				return
+			}
+			n := commonName(&cl.Call)
+			if !strings.HasSuffix(n, "gorilla/websocket.Conn).NextReader") && !strings.HasSuffix(n, "gorilla/websocket.Conn).ReadMessage") {
+				return
+			}
+			c.check(anyFact(mfs.At(cl.Block()), func(f Fact) bool { return cmpFact(f, token.EQL, isReaderLoad, isNilConst) }), "C07.R2", fnName(m)+"/next-only-when-drained", cl.Pos(),
+				"the next message is requested only when no reader is retained", "the next WebSocket message is requested while a partially read message may still be retained in c.reader: gorilla discards the unread rest of that message (bytes lost)")
+		})
+	}
 	c.check(isParamValue(rd.Call.Args[0], read, "b"), "C07.R2", fnName(read)+"/reads-into-callers-buffer", rd.Pos(), "the retained reader reads into the caller's buffer", "the reader does not read into the caller's buffer")
-	rdErr := func(v ssa.Value) bool { ex, ok := v.(*ssa.Extract); return ok && ex.Tuple == ssa.Value(rd) && ex.Index == 1 }
+	rdErr := func(v ssa.Value) bool {
+		ex, ok := v.(*ssa.Extract)
+		return ok && ex.Tuple == ssa.Value(rd) && ex.Index == 1
+	}
 	for _, s := range p.storesToField(readerF, false) {
 		st, ok := s.Instr.(*ssa.Store)
 		if !ok || s.Fn != read {
@@ -305,10 +332,16 @@ func c07Adapter(c *Ctx) {
 		ex, ok := st.Val.(*ssa.Extract)
 		fromNext := ok && ex.Tuple == ssa.Value(next) && ex.Index == 1
 		noErr := anyFact(facts, func(f Fact) bool {
-			return cmpFact(f, token.EQL, func(v ssa.Value) bool { e, ok := v.(*ssa.Extract); return ok && e.Tuple == ssa.Value(next) && e.Index == 2 }, isNilConst)
+			return cmpFact(f, token.EQL, func(v ssa.Value) bool {
+				e, ok := v.(*ssa.Extract)
+				return ok && e.Tuple == ssa.Value(next) && e.Index == 2
+			}, isNilConst)
 		})
 		binary := anyFact(facts, func(f Fact) bool {
-			return cmpFact(f, token.EQL, func(v ssa.Value) bool { e, ok := v.(*ssa.Extract); return ok && e.Tuple == ssa.Value(next) && e.Index == 0 }, func(v ssa.Value) bool { k, ok := constInt(v); return ok && k == 2 })
+			return cmpFact(f, token.EQL, func(v ssa.Value) bool {
+				e, ok := v.(*ssa.Extract)
+				return ok && e.Tuple == ssa.Value(next) && e.Index == 0
+			}, func(v ssa.Value) bool { k, ok := constInt(v); return ok && k == 2 })
 		})
 		c.check(fromNext && noErr && binary, "C07.R2", fnName(read)+"/retains-binary-reader", st.Pos(), "only the reader of a successfully fetched binary message is retained",
 			"a reader is retained that is not the reader of a successfully fetched binary message (text/control frames would be spliced into the byte stream); facts "+factStrings(facts))
@@ -348,7 +381,9 @@ func c07Adapter(c *Ctx) {
 				okLen = true
 			}
 		}
-		success := wm != nil && anyFact(wfs.At(r.Block()), func(f Fact) bool { return cmpFact(f, token.EQL, func(v ssa.Value) bool { return v == ssa.Value(wm) }, isNilConst) })
+		success := wm != nil && anyFact(wfs.At(r.Block()), func(f Fact) bool {
+			return cmpFact(f, token.EQL, func(v ssa.Value) bool { return v == ssa.Value(wm) }, isNilConst)
+		})
 		c.check(okLen && success && isNilConst(rv[1]), "C07.R3", fmt.Sprintf("%s/reports-len-on-success[%d]", fnName(write), k), r.Pos(), "len(b) is reported only when the message was written", "Write reports bytes as written although the message was not sent (callers such as io.Copy and yamux then drop or duplicate data)")
 	}
 }
@@ -622,7 +657,10 @@ func c18Reconnect(c *Ctx) {
 		n++
 		c.analysed(fnName(fn))
 		fs := computeFacts(fn)
-		accErr := func(v ssa.Value) bool { ex, ok := v.(*ssa.Extract); return ok && ex.Tuple == ssa.Value(acc) && ex.Index == 1 }
+		accErr := func(v ssa.Value) bool {
+			ex, ok := v.(*ssa.Extract)
+			return ok && ex.Tuple == ssa.Value(acc) && ex.Index == 1
+		}
 		bad := ""
 		nStops := 0
 		for _, r := range returnsOf(fn) {
@@ -641,7 +679,9 @@ func c18Reconnect(c *Ctx) {
 					return strings.Contains(cl.Call.Value.Type().String(), "context.Context")
 				}, isNilConst)
 			})
-			reconnectFailed := anyFact(facts, func(f Fact) bool { return cmpFact(f, token.NEQ, func(v ssa.Value) bool { return v == ssa.Value(conn) }, isNilConst) })
+			reconnectFailed := anyFact(facts, func(f Fact) bool {
+				return cmpFact(f, token.NEQ, func(v ssa.Value) bool { return v == ssa.Value(conn) }, isNilConst)
+			})
 			// any extra disjunct that is not local state weakens the guard: use edge alternatives
 			for _, alt := range factAlternatives(fs, r.Block(), 3) {
 				l2 := anyFact(alt, func(f Fact) bool {
@@ -650,7 +690,9 @@ func c18Reconnect(c *Ctx) {
 						return ok && cl.Call.IsInvoke() && cl.Call.Method.Name() == "Err" && strings.Contains(cl.Call.Value.Type().String(), "context.Context")
 					}, isNilConst)
 				})
-				r2 := anyFact(alt, func(f Fact) bool { return cmpFact(f, token.NEQ, func(v ssa.Value) bool { return v == ssa.Value(conn) }, isNilConst) })
+				r2 := anyFact(alt, func(f Fact) bool {
+					return cmpFact(f, token.NEQ, func(v ssa.Value) bool { return v == ssa.Value(conn) }, isNilConst)
+				})
 				if !l2 && !r2 {
 					local, reconnectFailed = false, false
 				}
@@ -740,7 +782,9 @@ func runC19(c *Ctx) {
 		return cmpFact(f, token.GTR, isLen, isK(1)) || cmpFact(f, token.GEQ, isLen, isK(2))
 	}), "C19.R1", fnName(fn)+"/guard-other-nodes", shed.Pos(), "sheds only when len(cluster.Nodes()) > 1", "shedding is not guarded by `more than one node known` (len(cluster.Nodes()) > 1); facts "+factStrings(facts))
 	// (b) connections
-	c.check(anyFact(facts, func(f Fact) bool { return cmpFact(f, token.NEQ, isLocal, isK(0)) || cmpFact(f, token.GTR, isLocal, isK(0)) }),
+	c.check(anyFact(facts, func(f Fact) bool {
+		return cmpFact(f, token.NEQ, isLocal, isK(0)) || cmpFact(f, token.GTR, isLocal, isK(0))
+	}),
 		"C19.R1", fnName(fn)+"/guard-has-conns", shed.Pos(), "sheds only with open sessions", "shedding is not guarded by openSessions() != 0")
 	c.check(anyFact(facts, func(f Fact) bool { return cmpFact(f, token.GEQ, isLocal, cfg("MinConns")) }),
 		"C19.R1", fnName(fn)+"/guard-min-conns", shed.Pos(), "sheds only at or above Rebalance.MinConns", "shedding is not guarded by openSessions() >= Rebalance.MinConns; facts "+factStrings(facts))
